@@ -86,7 +86,8 @@ def run(prop, tier, seed, replay=None):
                     key = json.dumps(c['toks'])
                     if key not in seen:
                         seen.add(key)
-                        tok_args.append(('A-%s%06d' % ('e' if opts else 'p', len(seen)), c['toks'], opts, None, seed + len(seen)))
+                        tok_args.append(('A-%s%06d' % ((opts[0][:1] if opts else 'p') + str(L), len(seen)), c['toks'], opts, None,
+                                         seed + len(seen)))
             nv = core.tlc(w, 'MCBA', CFG_A % dict(L=5, opts='', dev='"truncated_group_silent"', emit=''), timeout=600)
             if 'InvDecl' not in nv.violated:
                 raise core.MachineryError('non-vacuity: truncated_group_silent not detected')
